@@ -39,6 +39,8 @@ CONSTANTS MaxNodes,     \* trees have 1..MaxNodes nodes
           OptMode,      \* "full": the whole option product; "relevant": options that cannot bite on the tree stay off;
                         \* "device": same_file_system and follow_links on, no size limit, every filter / ignore rule
                         \* "ignore": nothing but the ignore rules (every directory x every entry it may name)
+                        \* "mount": trees in which a directory may be a MOUNT POINT (a plain directory that lives on another
+                        \*          device than its parent); same_file_system and follow_links on and off, nothing else
           ExactSize,    \* simulation: 0, or every behaviour builds a tree of a size fixed in the initial state
           NeedDev2,     \* TRUE: only trees in which some link leads to the other device get scenarios
           OptSample     \* simulation: 0 = every option record of OptSet, k > 0 = a random k-subset of it per (tree, roots)
@@ -69,12 +71,14 @@ KindCode(k) == CASE k = "dir" -> 1 [] k = "file" -> 2 [] OTHER -> 3
 NextNodes(t) ==
   LET i == Len(t) + 1
       pars == {p \in {0} \cup {j \in 1..Len(t) : t[j].kind = "dir"} : i = 1 \/ p >= t[i-1].par}
-      devs(p) == IF p # 0 THEN {t[p].dev} ELSE IF i = 1 THEN {1} ELSE Devs
+      \* (mount points - "mount" mode only: a directory below a device-1 parent may lie on device 2; what is below it inherits)
+      devs(p, k) == IF p # 0 THEN (IF OptMode = "mount" /\ k = "dir" /\ t[p].dev = 1 THEN Devs ELSE {t[p].dev})
+                    ELSE IF i = 1 THEN {1} ELSE Devs
       shapes == {[kind |-> "dir", big |-> FALSE, tgt |-> 0]}
                 \cup {[kind |-> "file", big |-> b, tgt |-> 0] : b \in BOOLEAN}
                 \cup {[kind |-> "link", big |-> FALSE, tgt |-> g] : g \in 0..Len(t)}
       ordered(p, s) == (i > 1 /\ p = t[i-1].par) => KindCode(s.kind) >= KindCode(t[i-1].kind)
-  IN UNION { UNION { {[par |-> p, kind |-> s.kind, big |-> s.big, tgt |-> s.tgt, dev |-> d] : d \in devs(p)}
+  IN UNION { UNION { {[par |-> p, kind |-> s.kind, big |-> s.big, tgt |-> s.tgt, dev |-> d] : d \in devs(p, s.kind)}
                      : s \in {x \in shapes : ordered(p, x)} } : p \in pars }
 
 RootSeqs(t) ==
@@ -98,7 +102,11 @@ OptSet(t) ==
               \* a rule naming an entry that does NOT live below the ignore file's directory: it must never act
               \* (a walker that keeps the matcher of a directory it has left would apply it to later entries)
               \cup {<<pr[1], pr[2], FALSE>> : pr \in {q \in IgnPairs(t) : q[2] \notin PhysDesc(t, q[1]) /\ q[2] # q[1]}}
-  IN {[md |-> m, fs |-> a, fl |-> b, sfs |-> c, filt |-> f, ignd |-> g[1], ignt |-> g[2], igndir |-> g[3]]
+  IN IF OptMode = "mount"
+     THEN {[md |-> m, fs |-> FALSE, fl |-> b, sfs |-> c, filt |-> 0, ignd |-> 0, ignt |-> 0, igndir |-> FALSE]
+             : m \in Depths, b \in BOOLEAN, c \in BOOLEAN}
+     ELSE
+     {[md |-> m, fs |-> a, fl |-> b, sfs |-> c, filt |-> f, ignd |-> g[1], ignt |-> g[2], igndir |-> g[3]]
         : m \in Depths, a \in (IF OptMode = "device" THEN {FALSE} ELSE B(hasBig)), b \in B(hasLink),
           c \in (IF Devs = {1} THEN {FALSE} ELSE B(hasDev2)),      \* one device: same_file_system cannot act
           f \in (IF OptMode = "ignore" THEN {0} ELSE 0..Len(t)), g \in igns}
@@ -305,6 +313,7 @@ PickRoots == /\ pc = "build" /\ Len(tree) >= MinEmit
              /\ (goal # 0 => Len(tree) = goal)
              /\ (NeedDev2 => \E i \in 1..Len(tree) : /\ tree[i].kind = "link" /\ Res(tree, i) # 0
                                                       /\ tree[Res(tree, i)].dev # tree[i].dev)
+             /\ (OptMode = "mount" => \E i \in 1..Len(tree) : tree[i].par # 0 /\ tree[i].dev # tree[tree[i].par].dev)
              /\ \E rs \in RootSeqs(tree) : roots' = rs
              /\ pc' = "roots"
              /\ UNCHANGED <<tree, opts, goal>>
